@@ -82,7 +82,7 @@ impl<'t, 'a> Gen<'t, 'a> {
         // redundant components are inserted by the renderer in front of the last component of the
         // written text, which is location-preserving only if no variable hides a separator
         let literal = v.iter().all(|p| matches!(p, Piece::Lit(_)));
-        let respell = if self.t.chance(self.o.respell_pct) && literal { Some(self.t.below(3) as u8) } else { None };
+        let respell = if self.t.chance(self.o.respell_pct) && literal { Some(self.t.below(5) as u8) } else { None };
         // directory-form paths (three spellings of `name/`) as inputs: one node whatever the spelling
         let dir_suffix = if !unique && literal && respell.is_none() && self.t.chance(self.o.respell_pct) { Some(self.t.below(3) as u8) } else { None };
         PathSpec { val: v, respell, dir_suffix }
